@@ -80,7 +80,9 @@ inductive Site where
   | vertexTypeIndex
   /-- mod.rs:163/167 default value of an edge parameter does not convert / is invalid. -/
   | paramDefault
-  /-- base.rs:380 `unimplemented!` in `is_valid_value` on an enum-valued edge argument — **N-2**. -/
+  /-- base.rs:380 `unimplemented!` in `is_valid_value` on an enum-valued edge argument (**N-2** /
+  F-C10-2, fixed: the enum arm is `false`, the argument is refused with `InvalidEdgeParameterType`;
+  the site no longer exists in the code or the model). -/
   | enumArgument
   /-- mod.rs:195 `edge_arguments.insert_or_error(..).unwrap()` (duplicated parameter name in the
   schema's edge definition) — **N-5** when the schema declares a parameter twice. -/
